@@ -225,13 +225,16 @@ type ghostFieldInfo struct {
 }
 
 func (fg *FG) ghostField(t types.Type, name string) (ghostFieldInfo, bool) {
+	// ghost fields declared on "any" attach to every reference-like value (pointer or interface)
+	if ty, ok := fg.g.ct.GhostFields["any."+name]; ok {
+		switch types.Unalias(t).Underlying().(type) {
+		case *types.Pointer, *types.Interface:
+			return ghostFieldInfo{family: "G_any_" + sanitize(name), ty: ty}, true
+		}
+	}
 	t = types.Unalias(t)
 	if p, ok := t.Underlying().(*types.Pointer); ok {
 		t = types.Unalias(p.Elem())
-	} else if _, isI := t.Underlying().(*types.Interface); !isI {
-		if _, isN := t.(*types.Named); !isN {
-			return ghostFieldInfo{}, false
-		}
 	}
 	n, ok := t.(*types.Named)
 	if !ok {
@@ -247,6 +250,16 @@ func (fg *FG) ghostField(t types.Type, name string) (ghostFieldInfo, bool) {
 		return ghostFieldInfo{}, false
 	}
 	return ghostFieldInfo{family: "G_" + sanitize(pk+"_"+n.Obj().Name()+"_"+name), ty: ty}, true
+}
+
+// refOf returns the Int reference that identifies a pointer or interface value in ghost heaps.
+func (fg *FG) refOf(v Val) string {
+	if v.Ty != nil {
+		if _, isI := types.Unalias(v.Ty).Underlying().(*types.Interface); isI {
+			return fmt.Sprintf("(i.val %s)", v.T)
+		}
+	}
+	return v.T
 }
 
 // load loads the packages (working tree, build tag verif) and builds SSA for them.
